@@ -73,6 +73,8 @@ class Env:
         self.posts = []
         out = io.StringIO()
         res = {"ok": False, "exc": "", "stdout": "", "args": {}, "posts": []}
+        import logging
+        logging.disable(logging.CRITICAL)
         with warnings.catch_warnings():
             warnings.simplefilter("ignore")
             try:
